@@ -63,9 +63,38 @@ def run_shapes(names):
     return (res, total), None
 
 
+KEYWORDS = {"const", "unsigned", "signed", "int", "char", "short", "long", "volatile", "sizeof", "typeof", "__typeof__", "uint16_t", "uint32_t", "uint8_t", "uint64_t", "size_t", "static", "register", "__extension__", "_Bool", "float", "double", "void", "struct", "union", "enum"}
+
+
+def hygiene_probes(tokens):
+    """(label, C block, expected output) - the argument expressions a macro must survive: one with a side effect (each
+    argument is evaluated exactly once) and one mentioning a caller variable named like an identifier of the macro body"""
+    import re
+    probes = [("value argument with a side effect", 'unsigned n = 0; uint16_t v = 0x0010; int got = (libwifi_check_capabilities((n++, v), CAPABILITIES_PRIVACY)) != 0; printf("%u %d\\n", n, got);', "1 1"),
+              ("value argument with a side effect, bit clear", 'unsigned n = 0; uint16_t v = 0x0401; int got = (libwifi_check_capabilities((n++, v), CAPABILITIES_PRIVACY)) != 0; printf("%u %d\\n", n, got);', "1 0"),
+              ("reader argument returning successive fields", 'static const uint16_t f[3] = {0x0010, 0x0000, 0x0000}; unsigned i = 0; int got = (libwifi_check_capabilities(f[i++], CAPABILITIES_PRIVACY)) != 0; printf("%u %d\\n", i, got);', "1 1"),
+              ("capability argument with a side effect", 'unsigned n = 0; uint16_t v = 0x0010; int got = (libwifi_check_capabilities(v, (n++, CAPABILITIES_PRIVACY))) != 0; printf("%u %d\\n", n, got);', "1 1")]
+    for t in sorted(set(tokens)):
+        if re.match(r"^[A-Za-z_][A-Za-z0-9_]*$", t) and t not in ("LWV_X", "LWV_CAP") and t not in KEYWORDS and not t.startswith("__builtin"):
+            probes.append(("caller variable named `%s`" % t, 'uint16_t field = 0x0431; unsigned %s = 0xffef; int got = (libwifi_check_capabilities(field & %s, CAPABILITIES_PRIVACY)) != 0; printf("%%d\\n", got);' % (t, t), "0"))
+    return probes
+
+
+def run_probe(block):
+    src = os.path.join(WORK, "capprobe.c")
+    exe = os.path.join(WORK, "capprobe")
+    with open(src, "w") as f:
+        f.write('#include <stdio.h>\n#include <stdint.h>\n#include "libwifi.h"\nint main(void) { %s return 0; }\n' % block)
+    rc, out, err = run(["gcc", "-O1", "-w", "-o", exe, src] + CFLAGS_COMMON)
+    if rc != 0:
+        return None
+    rc, out, err = run([exe], timeout=60)
+    return out.strip() if rc == 0 else "exit %d" % rc
+
+
 def check(ctx):
     ctx.rule = ("the real macro from the working tree's headers, instantiated in a generated C program with %d argument-expression shapes x %d capability-argument shapes x all 15 published names x all 65536 values (exhaustive); "
-                "expected = the IEEE 802.11 bit of the Spec table; distinct = (name, shape, shape, value)" % (len(XSHAPES), len(CSHAPES)))
+                "plus hygiene probes (arguments with side effects, caller variables named like identifiers of the macro body); expected = the IEEE 802.11 bit of the Spec table; distinct = (name, shape, shape, value)" % (len(XSHAPES), len(CSHAPES)))
     meta, data = fw.run_gen(ctx)
     if meta is None:
         return
@@ -103,6 +132,17 @@ def check(ctx):
     ctx.coverage["cases"] = len(rows)
     ctx.oblige("spec-on-impl", "macro non-zero iff the IEEE bit is set: %d (name, shape, shape) cases x 65536 values" % len(rows), bad == 0)
     ctx.sample({"macro_expansion": " ".join(data["cap_tokens"]), "case": "libwifi_check_capabilities(%s, %s)" % (XSHAPES[2][1], CSHAPES[2][1] % names[4][0]), "mismatches": [r for r in rows if r[0] == names[4][0] and r[1] == 2 and r[2] == 2][0][3]})
+    # however the argument expression is written: side effects and caller variables named like the macro's own identifiers
+    hb = 0
+    probes = hygiene_probes(data["cap_tokens"])
+    for label, block, want in probes:
+        got = run_probe(block)
+        ctx.count(1, [("probe", label)])
+        if got is not None and got != want:       # a probe that does not compile (the identifier is a type, ...) says nothing
+            hb += 1
+            ctx.violation("cap-hygiene:" + label, "libwifi_check_capabilities with a %s: the program `%s` prints %r, a function-like test of the value prints %r" % (label, block, got, want),
+                          {"kind": "cap-probe", "label": label, "block": block, "expected": want, "observed": got})
+    ctx.oblige("spec-on-impl", "the macro behaves like a function of its argument values on %d hygiene probes (side effects evaluated once, no capture of caller identifiers)" % len(probes), hb == 0)
     # distinct capabilities never test the same bit
     seen = {}
     for n, v in data["probe"]["enums"].get("libwifi_capabilities", []):
@@ -123,6 +163,9 @@ def replay(rp):
             return False, err[-300:]
         rows = [r for r in res[0] if r[1] == rp["xshape"] and r[2] == rp["cshape"]]
         return rows[0][3] == 0, "libwifi_check_capabilities(%s, %s): %d wrong values" % (XSHAPES[rp["xshape"]][1], CSHAPES[rp["cshape"]][1] % rp["name"], rows[0][3])
+    if k == "cap-probe":
+        got = run_probe(rp["block"])
+        return got == rp["expected"], "%s: prints %r (expected %r)" % (rp["label"], got, rp["expected"])
     if k in ("cap-dup", "cap-missing"):
         meta, data = genmod.generate()
         d = dict(data["probe"]["enums"]["libwifi_capabilities"])
